@@ -104,6 +104,7 @@ pub fn gen_profile(rng: &mut Rng, focus: Focus, thorough: bool) -> Profile {
         }
         Focus::Aux => {
             p.f_aux = true;
+            p.f_ties = rng.chance(0.15);
             p.f_out = rng.chance(0.93);
             p.f_ambiguous_aux = rng.chance(0.08);
             // systems whose attribution the rule does not determine (NEPB / COGEN uses) stay a minority
@@ -194,8 +195,8 @@ fn print_values(rng: &mut Rng, p: &Profile, ks: &[i64]) -> Vec<String> {
 /// The tool's own automatic comments: files saved with --oc carry them on declared lines.
 pub const TOOL_COMMENTS: [&str; 2] = ["Equilibrado de consumo sin producción declarada", "Reasignación automática de consumos auxiliares"];
 
-const PLAIN_WORDS: [&str; 12] = [
-    "BdC 1", "Caldera", "PV", "ACS", "Equipo de calefacción COP 3", "n_gen=2.5 n_d+e+c=0.88", "Paneles solares térmicos 2m2",
+const PLAIN_WORDS: [&str; 15] = [
+    "consumo del vector EAMBIENTE", "Vector energético", "id, vector, tipo", "BdC 1", "Caldera", "PV", "ACS", "Equipo de calefacción COP 3", "n_gen=2.5 n_d+e+c=0.88", "Paneles solares térmicos 2m2",
     "Producción fotovoltaica in situ", "Energía entregada", "SISTEMA SECUNDARIO FC_P01_E01  ventiladores", "x", "Demanda anual",
 ];
 const HOSTILE_BITS: [&str; 36] = [
@@ -209,7 +210,17 @@ const CONTROL_BITS: [&str; 8] = ["\u{1}", "\u{8}", "\u{b}", "\u{1f}", "\u{fffe}"
 /// A comment / metadata value: trimmed, no line breaks, never one of the tool's control tags.
 pub fn gen_text(rng: &mut Rng, hostile: bool, control: bool) -> String {
     let mut s = String::new();
-    let n = 1 + rng.usize(3);
+    // now and then a long description (hundreds of bytes, accented): byte offsets inside multi-byte characters
+    let n = if rng.chance(0.03) { 20 + rng.usize(60) } else { 1 + rng.usize(3) };
+    if n > 3 {
+        for i in 0..n {
+            if i > 0 {
+                s.push(' ');
+            }
+            s.push_str(*rng.pick(&["calefacción", "refrigeración", "producción", "año", "energía", "térmica", "bomba de calor", "n=0.30", "ñ", "€/kWh"][..]));
+        }
+        return s;
+    }
     for i in 0..n {
         if i > 0 {
             s.push(' ');
@@ -389,7 +400,7 @@ pub fn gen_building(rng: &mut Rng, p: &Profile) -> Building {
                     .map(|t| used_hund.iter().filter(|(s, cc, _)| cc == c && s != "NEPB").map(|(_, _, ks)| ks[t]).sum())
                     .collect();
                 let has_use = used_hund.iter().any(|(_, cc, _)| cc == c);
-                let mode = rng.below(8);
+                let mode = rng.below(9);
                 if !has_use && !(production_only || rng.chance(0.1)) {
                     continue;
                 }
@@ -397,9 +408,13 @@ pub fn gen_building(rng: &mut Rng, p: &Profile) -> Building {
                     continue; // missing production
                 }
                 let target_id = if mode == 6 && ids.len() > 1 { ids[(si + 1) % ids.len()] } else { id };
+                let mut permuted = use_tot.clone();
+                rng.shuffle(&mut permuted);
                 let prod: Vec<i64> = use_tot
                     .iter()
-                    .map(|&u| match mode {
+                    .enumerate()
+                    .map(|(t, &u)| match mode {
+                        8 => permuted[t], // same annual total as the use, distributed differently over the steps
                         1 => (u as f64 * rng.unit()) as i64,                  // partial
                         2 | 6 => u,                                           // exact (6: on another system)
                         3 => u + gen_value(rng, p),                           // surplus
@@ -429,6 +444,7 @@ pub fn gen_building(rng: &mut Rng, p: &Profile) -> Building {
 
         // --- SALIDA lines (outputs): REF absorbs (negative), the rest deliver (positive)
         let mut out_services: Vec<String> = Vec::new();
+        let mut prev_out_mags: Option<Vec<i64>> = None;
         if p.f_out && rng.chance(if p.f_aux { 0.95 } else { 0.85 }) {
             let mut srvs: Vec<String> = services.iter().map(|s| s.to_string()).collect();
             if srvs.len() > 1 && rng.chance(0.15) {
@@ -444,7 +460,19 @@ pub fn gen_building(rng: &mut Rng, p: &Profile) -> Building {
                 let n_lines = if p.f_multi && rng.chance(0.3) { 2 } else { 1 };
                 for _ in 0..n_lines {
                     let sign = if s == "REF" { -1 } else { 1 };
-                    let ks: Vec<i64> = gen_values(rng, p).iter().map(|k| sign * k).collect();
+                    // ties: a service that delivers exactly as much as the previous one (equal annual outputs)
+                    let mags: Vec<i64> = match (&prev_out_mags, p.f_ties && rng.chance(0.5)) {
+                        (Some(m), true) => {
+                            let mut m2: Vec<i64> = m.clone();
+                            if rng.chance(0.5) {
+                                rng.shuffle(&mut m2); // same annual total, another profile
+                            }
+                            m2
+                        }
+                        _ => gen_values(rng, p),
+                    };
+                    prev_out_mags = Some(mags.clone());
+                    let ks: Vec<i64> = mags.iter().map(|k| sign * k).collect();
                     push_line(&mut b, rng, p, id, Kind::Out { service: s.clone() }, &ks);
                 }
                 out_services.push(s);
@@ -469,14 +497,48 @@ pub fn gen_building(rng: &mut Rng, p: &Profile) -> Building {
 
     // --- building demands
     if p.f_needs {
+        // the demand series need not have the components' number of steps (e.g. one annual value): 6 % of files
+        let need_len = if rng.chance(0.06) { *rng.pick(&[1usize, 2, 12, p.steps + 1]) } else { p.steps };
         for s in ["ACS", "CAL", "REF"] {
             if rng.chance(0.6) {
                 let n = if p.f_multi && rng.chance(0.3) { 2 } else { 1 };
                 for _ in 0..n {
-                    let ks = gen_values(rng, p);
+                    let ks: Vec<i64> = (0..need_len).map(|_| gen_value(rng, p)).collect();
                     push_line(&mut b, rng, p, 0, Kind::Need { service: s.into() }, &ks);
                 }
             }
+        }
+    }
+
+    // --- twin systems: every line of one system declared again for another id (two identical heat pumps)
+    if !b.ids().is_empty() && rng.chance(0.05) {
+        let ids_now = b.ids();
+        let src_id = *rng.pick(&ids_now);
+        let mut new_id = *rng.pick(pool);
+        let mut guard = 0;
+        while ids_now.contains(&new_id) && guard < 30 {
+            new_id = *rng.pick(pool);
+            guard += 1;
+        }
+        if !ids_now.contains(&new_id) {
+            let copies: Vec<Line> = b
+                .lines
+                .iter()
+                .filter(|l| !l.kind.is_need() && l.id == src_id)
+                .map(|l| {
+                    let mut c = l.clone();
+                    c.id = new_id;
+                    c.explicit_id = new_id != 0 || c.explicit_id || matches!(c.kind, Kind::Out { .. });
+                    c
+                })
+                .collect();
+            b.lines.extend(copies);
+        }
+    }
+    // --- the documented exclusion tag on an ambient-energy use for DHW
+    if rng.chance(0.03) {
+        if let Some(l) = b.lines.iter_mut().find(|l| matches!(&l.kind, Kind::Used { service, carrier } if carrier == "EAMBIENTE" && service == "ACS")) {
+            l.comment = format!("{} CTEEPBD_EXCLUYE_SCOP_ACS", if l.comment.is_empty() { "BdC" } else { l.comment.as_str() }).trim().to_string();
         }
     }
 
@@ -514,7 +576,8 @@ pub fn gen_building(rng: &mut Rng, p: &Profile) -> Building {
         }
         let n_free = rng.usize(3);
         for i in 0..n_free {
-            let key = format!("{}{}", rng.pick(&["Name", "Datetime", "Weather_file", "CTE_FUENTE", "Nota", "Año", "Descripción_del_edificio", "名前", "Ñ"]), i);
+            let base = *rng.pick(&["Name", "Datetime", "Weather_file", "CTE_FUENTE", "Nota", "Año", "Descripción_del_edificio", "名前", "Ñ"]);
+            let key = if i == 0 && rng.chance(0.5) { base.to_string() } else { format!("{}{}", base, i) };
             b.meta.push((key, gen_text(rng, p.f_hostile_text, p.f_control_chars)));
         }
         if rng.chance(0.3) {
